@@ -26,6 +26,10 @@ def plan(tier, seed):
                  wss=("",), alpha="ab", nmax=4),
             dict(space="big", lexmaps=("M0",), wss=("",), alpha="", nmax=0,
                  ops=(10, 20)),
+            # the forest of a parser that carries an (accept-all) dynamic
+            # filter: the filter leaves its traces on the forest's nodes
+            dict(space="k3", win=(seed, 4), lexmaps=("M0", "M3"), wss=("",),
+                 alpha="ab", nmax=4, filter=True),
         ]
     return [
         dict(space="k3", lexmaps=ALL, wss=("", " "), alpha="ab", nmax=5),
@@ -37,6 +41,8 @@ def plan(tier, seed):
         dict(space="n3", lexmaps=("M0",), wss=("",), alpha="ab", nmax=4),
         dict(space="big", lexmaps=("M0",), wss=("",), alpha="", nmax=0,
              ops=(10, 20, 30, 40)),
+        dict(space="k3", lexmaps=("M0", "M3"), wss=("",), alpha="ab", nmax=4,
+             filter=True),
     ]
 
 
@@ -261,7 +267,14 @@ def big_unit(u):
 def run_unit(u):
     if u["space"] == "big":
         return big_unit(u)
+    if u.get("filter"):
+        return glrsweep.sweep(u, PROP, KNOWN, check_case,
+                              parser_opts={"dynamic_filter": accept_all})
     return glrsweep.sweep(u, PROP, KNOWN, check_case)
+
+
+def accept_all(context, from_state, to_state, action, production, subresults):
+    return None if action is None else True
 
 
 def evidence(total, tier, seed, complete):
